@@ -736,6 +736,8 @@ type QueryResult struct {
 	// TimedOut: the watchdog fired while the cluster was not quiescent (inconclusive, never a verdict).
 	TimedOut bool
 	Elapsed  time.Duration
+	// LateAnswer: the stuck condition was met but the root delivered its result when it was cancelled (observation).
+	LateAnswer bool
 	// StuckDump holds, for a stuck query, the transport events of the query and the goroutine dump taken when the
 	// verdict was reached.
 	StuckDump string
@@ -809,6 +811,7 @@ func (c *Cluster) run(res *QueryResult, q *stmt.Query) *QueryResult {
 	tick := time.NewTicker(2 * time.Millisecond)
 	defer tick.Stop()
 	var quietSince time.Time
+	confirmations := 0
 	for {
 		select {
 		case o := <-done:
@@ -827,6 +830,7 @@ func (c *Cluster) run(res *QueryResult, q *stmt.Query) *QueryResult {
 			c.mu.Unlock()
 			if !idle {
 				quietSince = time.Time{}
+				confirmations = 0
 				continue
 			}
 			if quietSince.IsZero() {
@@ -838,6 +842,12 @@ func (c *Cluster) run(res *QueryResult, q *stmt.Query) *QueryResult {
 					// a helper goroutine (the root's search call or an intermediate processor) is still running or
 					// runnable: it is working or about to (slow machine), not waiting for a response
 					quietSince = time.Time{}
+					confirmations = 0
+					continue
+				}
+				// the condition has to be observed three times, a grace period apart, before it becomes a verdict
+				if confirmations++; confirmations < 3 {
+					quietSince = time.Now()
 					continue
 				}
 				res.Stuck, res.Held = true, held
@@ -849,6 +859,10 @@ func (c *Cluster) run(res *QueryResult, q *stmt.Query) *QueryResult {
 				cancel()
 				o := <-done
 				res.Err = o.err
+				if rs, ok := o.rs.(*commonmodels.ResultSet); ok && o.err == nil {
+					// the root did produce its answer after all (it was about to be woken): not stuck
+					res.ResultSet, res.Stuck, res.Held, res.LateAnswer = rs, false, 0, true
+				}
 				return res
 			}
 		}
